@@ -503,3 +503,137 @@ Proof.
     intros Hne. exfalso. eapply Hne. reflexivity.
   - weaken. alloc_same Hs Hf utf_catc_mech.
 Qed.
+
+Theorem fault_step o m m' r e :
+  minv m -> op_ok o m -> step o m = (m', r, e) -> any_failed e = true ->
+  fail_ret o = Some r /\ minv m' /\ abs m' = abs m /\ keeps (sA m) (sA m') /\ keeps (sB m) (sB m').
+Proof.
+  intros Hm Hok Hs Hf.
+  destruct (step_good o m m' r e Hm Hok Hs) as (Hm' & [_ Href] & _). rewrite Hf in Href.
+  destruct Href as [Ha Hr].
+  destruct (fault_step_keeps o m m' r e Hm Hok Hs Hf) as (KA & KB & _). auto.
+Qed.
+
+(* the failure values, spelled out *)
+Lemma fail_ret_table o r : fail_ret o = Some r ->
+  match o with
+  | OCatf _ _ => r = RInt 0%Z
+  | OExit _ => r = RPtr None
+  | OCatc _ _ | OCatc_ _ _ => r = RInt (-1)%Z
+  | _ => r = RInt A_OMEMORY
+  end.
+Proof. destruct o; cbn; intros [= <-]; reflexivity. Qed.
+
+Definition fault_reports_step (x : mstate * op * (mstate * ret * list ev)) : Prop :=
+  let '(m0, o, (m1, r, e)) := x in
+  any_failed e = true ->
+  fail_ret o = Some r /\
+  match o with
+  | OCatf _ _ => r = RInt 0%Z
+  | OExit _ => r = RPtr None
+  | OCatc _ _ | OCatc_ _ _ => r = RInt (-1)%Z
+  | _ => r = RInt A_OMEMORY
+  end.
+
+Definition fault_preserves_step (x : mstate * op * (mstate * ret * list ev)) : Prop :=
+  let '(m0, o, (m1, r, e)) := x in
+  any_failed e = true ->
+  minv m1 /\ abs m1 = abs m0 /\ keeps (sA m0) (sA m1) /\ keeps (sB m0) (sB m1).
+
+Lemma steps_forall (P : mstate * op * (mstate * ret * list ev) -> Prop) :
+  (forall o m m' r e, minv m -> op_ok o m -> step o m = (m', r, e) -> P (m, o, (m', r, e))) ->
+  forall ops m, minv m -> ops_ok ops m -> Forall P (steps ops m).
+Proof.
+  intros HP. induction ops as [|o ops IH]; intros m Hm Hok; cbn [steps]; [constructor|].
+  destruct Hok as [Ho Hr]. destruct (step o m) as [[m1 r] e] eqn:Es. cbn [fst] in *.
+  constructor; [now apply HP|]. apply IH; [|assumption].
+  now destruct (step_good o m m1 r e Hm Ho Es).
+Qed.
+
+Theorem str_fault_reports_all : forall sc ops, ops_ok ops (m_init sc) ->
+  Forall fault_reports_step (steps ops (m_init sc)).
+Proof.
+  intros sc ops Hok. apply steps_forall; [|apply minv_init|assumption].
+  intros o m m' r e Hm Ho Hs Hf. destruct (fault_step o m m' r e Hm Ho Hs Hf) as (Hr & _).
+  split; [assumption|]. now apply fail_ret_table.
+Qed.
+
+Theorem str_fault_preserves_all : forall sc ops, ops_ok ops (m_init sc) ->
+  Forall fault_preserves_step (steps ops (m_init sc)).
+Proof.
+  intros sc ops Hok. apply steps_forall; [|apply minv_init|assumption].
+  intros o m m' r e Hm Ho Hs Hf. destruct (fault_step o m m' r e Hm Ho Hs Hf) as (_ & ? & ? & ? & ?).
+  auto.
+Qed.
+
+(* ================================================================== (c) retry *)
+Lemma ret_equiv_refl k r : ret_equiv k r r.
+Proof. destruct r as [| | [b|] | |]; cbn; reflexivity. Qed.
+
+Lemma minv_set_sch sc m : minv (set_sch sc m) <-> minv m.
+Proof. unfold minv, set_sch; cbn. tauto. Qed.
+
+Lemma abs_set_sch sc m : abs (set_sch sc m) = abs m.
+Proof. reflexivity. Qed.
+
+Lemma set_sch_set_sch sc sc' m : set_sch sc (set_sch sc' m) = set_sch sc m.
+Proof. reflexivity. Qed.
+
+Theorem fault_retry o m m1 r1 e1 :
+  minv m -> op_ok o m -> step o m = (m1, r1, e1) -> any_failed e1 = true ->
+  forall sc2 m2 r2 e2 m3 r3 e3,
+    step o (set_sch sc2 m1) = (m2, r2, e2) ->           (* the retry, after the failed attempt *)
+    step o (set_sch sc2 m) = (m3, r3, e3) ->            (* the same schedule without the failed attempt *)
+    any_failed e2 = false -> any_failed e3 = false ->
+    abs m2 = abs m3 /\ ret_equiv (len (asel (fst (op_needs o)) (abs m)) + 1) r2 r3.
+Proof.
+  intros Hm Hok Hs Hf sc2 m2 r2 e2 m3 r3 e3 H2 H3 F2 F3.
+  destruct (fault_step_keeps o m m1 r1 e1 Hm Hok Hs Hf) as (KA & KB & Hsame).
+  assert (Hnc : (forall t out, o <> OCatf t out) ->
+                abs m2 = abs m3 /\ ret_equiv (len (asel (fst (op_needs o)) (abs m)) + 1) r2 r3).
+  { intros Hne. rewrite (Hsame Hne), set_sch_set_sch in H2. rewrite H2 in H3.
+    injection H3 as <- <- <-. split; [reflexivity|apply ret_equiv_refl]. }
+  destruct o; try (apply Hnc; intros; discriminate).
+  (* formatted append *)
+  clear Hnc Hsame. destruct Hok as [Hfit Hlen].
+  destruct (fault_step (OCatf t out) m m1 r1 e1 Hm (conj Hfit Hlen) Hs Hf) as (_ & Hm1 & Ha1 & _).
+  assert (Hn1 : num (sel t m1) = num (sel t m)).
+  { destruct t; [destruct KA as (? & _)|destruct KB as (? & _)]; assumption. }
+  assert (Hok1 : op_ok (OCatf t out) (set_sch sc2 m1)).
+  { cbn. unfold fits in *. replace (sel t (set_sch sc2 m1)) with (sel t m1) by (destruct t; reflexivity).
+    rewrite Hn1. auto. }
+  assert (Hok0 : op_ok (OCatf t out) (set_sch sc2 m)).
+  { cbn. unfold fits in *. replace (sel t (set_sch sc2 m)) with (sel t m) by (destruct t; reflexivity). auto. }
+  destruct (step_good (OCatf t out) _ _ _ _ (proj2 (minv_set_sch sc2 m1) Hm1) Hok1 H2) as (_ & [_ R2] & _).
+  destruct (step_good (OCatf t out) _ _ _ _ (proj2 (minv_set_sch sc2 m) Hm) Hok0 H3) as (_ & [_ R3] & _).
+  rewrite F2 in R2. rewrite F3 in R3. cbn [spec_ok] in R2, R3.
+  rewrite abs_set_sch in R2, R3. rewrite Ha1 in R2.
+  destruct R2 as [-> ->]. destruct R3 as [-> ->]. split; reflexivity.
+Qed.
+
+(* once memory is available every request is granted *)
+Theorem retry_granted o m m' r e : sch m = [] -> step o m = (m', r, e) -> any_failed e = false.
+Proof.
+  intros Hsc Hs. pose proof (step_mech o m m' r e Hs) as M. unfold step_mech_stmt in M.
+  destruct o; try (destruct M as (_ & _ & G); exact (proj1 (G Hsc))).
+  - destruct M as (-> & _). reflexivity.
+  - destruct M as (_ & G & _). exact (proj1 (G Hsc)).
+Qed.
+
+(* (c) as one statement: after a failed attempt, re-issuing the operation with memory available
+   makes no refused request and gives the byte strings and the return value of the run in which
+   the operation was issued once, with memory available *)
+Theorem fault_retry_available o m m1 r1 e1 :
+  minv m -> op_ok o m -> step o m = (m1, r1, e1) -> any_failed e1 = true ->
+  forall m2 r2 e2 m3 r3 e3,
+    step o (set_sch [] m1) = (m2, r2, e2) ->
+    step o (set_sch [] m) = (m3, r3, e3) ->
+    any_failed e2 = false /\ any_failed e3 = false /\
+    abs m2 = abs m3 /\ ret_equiv (len (asel (fst (op_needs o)) (abs m)) + 1) r2 r3.
+Proof.
+  intros Hm Hok Hs Hf m2 r2 e2 m3 r3 e3 H2 H3.
+  assert (F2 : any_failed e2 = false) by (eapply retry_granted; [|exact H2]; reflexivity).
+  assert (F3 : any_failed e3 = false) by (eapply retry_granted; [|exact H3]; reflexivity).
+  split; [assumption|]. split; [assumption|].
+  exact (fault_retry o m m1 r1 e1 Hm Hok Hs Hf [] m2 r2 e2 m3 r3 e3 H2 H3 F2 F3).
+Qed.
